@@ -141,6 +141,17 @@ MUTATIONS += [
     dict(id="C02-check-count-one", prop="C02", file=PR, old="            if *count == 0 {\n                return Err(RusticError::new(\n                    ErrorKind::Internal,\n                    \"Blob ID `{blob_id}` is missing in index files.\",", new="            if *count == 1 {\n                return Err(RusticError::new(\n                    ErrorKind::Internal,\n                    \"Blob ID `{blob_id}` is missing in index files.\","),
 ]
 
+# ---- C01 tree archiver
+TA = "crates/core/src/archiver/tree_archiver.rs"
+MUTATIONS += [
+    dict(id="C01-ta-upload-only-known-trees", prop="C01", file=TA, old="        if !self.index.has_tree(&id) {", new="        if self.index.has_tree(&id) {"),
+    dict(id="C01-ta-trust-parent-tree", prop="C01", file=TA, old="            ParentResult::Matched(p_id) if id == *p_id => {\n                debug!(\"unchanged tree: {}\", path.display());\n                self.summary.dirs_unmodified += 1;\n                return Ok(id);", new="            ParentResult::Matched(p_id) => {\n                debug!(\"unchanged tree: {}\", path.display());\n                self.summary.dirs_unmodified += 1;\n                return Ok(*p_id);"),
+    dict(id="C01-ta-node-lost-on-endtree", prop="C01", file=TA, old="                self.tree = tree;\n                self.tree.add(node);", new="                self.tree.add(node);\n                self.tree = tree;"),
+    dict(id="C01-ta-subtree-not-set", prop="C01", file=TA, old="                node.subtree = Some(id);\n", new="                node.subtree = node.subtree.or(Some(id));\n"),
+    dict(id="C01-ta-empty-file-dropped", prop="C01", file=TA, old="        self.summary.total_bytes_processed += size;\n        self.tree.add(node);", new="        self.summary.total_bytes_processed += size;\n        if size > 0 || !matches!(parent, ParentResult::NotFound) {\n            self.tree.add(node);\n        }"),
+    dict(id="C01-ta-tree-add-front", prop="C01", file="crates/core/src/blob/tree.rs", old="        self.nodes.push(node);", new="        self.nodes.insert(0, node);"),
+]
+
 HARMLESS = [
     dict(id="H-C05-trees-symlink-continue", prop="C05", file=CK, old="        for node in tree.nodes {\n            match node.node_type {", new="        for node in tree.nodes {\n            if node.node_type == NodeType::Symlink {\n                continue;\n            }\n            match node.node_type {"),
 ]
